@@ -207,20 +207,20 @@ func c19NewWorld(t *testing.T, withServer bool) *c19World {
 
 	// outside files
 	outside := map[string]c19File{
-		"outside/secret.txt":             {Data: c19Unique(r, "SECRET outside every root")},
-		"outside/tile7":                  {Data: c19RandBytes(r, 32*7)},
-		"outside/checkpoint":             {Data: c19Unique(r, "SECRET outside checkpoint")},
-		"outside/fakeorigin/checkpoint":  {Data: c19Unique(r, "SECRET fake origin checkpoint")},
-		"outside/fakeorigin/tile/0/000":  {Data: c19RandBytes(r, 32*256)},
-		"outside/tile/0/000":             {Data: c19RandBytes(r, 32*256)},
-		"outside/issuer/" + evilHash:     {Data: c19Unique(r, "SECRET outside issuer")},
-		"secret-at-base.txt":             {Data: c19Unique(r, "SECRET at base")},
-		"logbX/checkpoint":               {Data: c19Unique(r, "SECRET sibling directory with a common name prefix")},
-		"loga-backup/checkpoint":         {Data: c19Unique(r, "SECRET sibling directory loga-backup")},
-		"outside/mirror/mirror.v0.json":  {Data: c19Unique(r, "SECRET outside mirror json")},
-		"outside/witness.v0.json":        {Data: c19Unique(r, "SECRET outside witness json")},
-		"outside/log.v3.json":            {Data: c19Unique(r, "SECRET outside log json")},
-		"outside/tile/data/000":          {Data: c19Gzip(c19Unique(r, "SECRET outside data tile"))},
+		"outside/secret.txt":                  {Data: c19Unique(r, "SECRET outside every root")},
+		"outside/tile7":                       {Data: c19RandBytes(r, 32*7)},
+		"outside/checkpoint":                  {Data: c19Unique(r, "SECRET outside checkpoint")},
+		"outside/fakeorigin/checkpoint":       {Data: c19Unique(r, "SECRET fake origin checkpoint")},
+		"outside/fakeorigin/tile/0/000":       {Data: c19RandBytes(r, 32*256)},
+		"outside/tile/0/000":                  {Data: c19RandBytes(r, 32*256)},
+		"outside/issuer/" + evilHash:          {Data: c19Unique(r, "SECRET outside issuer")},
+		"secret-at-base.txt":                  {Data: c19Unique(r, "SECRET at base")},
+		"logbX/checkpoint":                    {Data: c19Unique(r, "SECRET sibling directory with a common name prefix")},
+		"loga-backup/checkpoint":              {Data: c19Unique(r, "SECRET sibling directory loga-backup")},
+		"outside/mirror/mirror.v0.json":       {Data: c19Unique(r, "SECRET outside mirror json")},
+		"outside/witness.v0.json":             {Data: c19Unique(r, "SECRET outside witness json")},
+		"outside/log.v3.json":                 {Data: c19Unique(r, "SECRET outside log json")},
+		"outside/tile/data/000":               {Data: c19Gzip(c19Unique(r, "SECRET outside data tile"))},
 		"outside/fakeorigin/tile/entries/000": {Data: c19Gzip(c19Unique(r, "SECRET outside entries tile"))},
 	}
 	if err := c19WriteFiles(base, outside); err != nil {
@@ -556,7 +556,7 @@ func c19Uniform(t *rapid.T, label string, n int) int {
 	}
 }
 func (g *c19Gen) of(label string, s ...string) string { return s[g.n(label, len(s))] }
-func (g *c19Gen) entry(label string) *c19Entry         { return g.w.Entries[g.n(label, len(g.w.Entries))] }
+func (g *c19Gen) entry(label string) *c19Entry        { return g.w.Entries[g.n(label, len(g.w.Entries))] }
 
 func (g *c19Gen) layoutRel(e *c19Entry) string {
 	k := e.Kinds[g.n("objKind", len(e.Kinds))]
